@@ -202,6 +202,7 @@ def plans_for(data, every_byte):
     for meth in ("read", "seek", "tell"):
         for k in range(calls.get(meth, 0)):
             plans.append(("call", (meth, k)))
+    plans.append(("call", ("close", 0)))     # the library's own close() of a path-opened file reports an error
     for k in range(nch):
         plans.append(("chunk", k))
     # truncation
